@@ -182,8 +182,9 @@ def _burn_in_past_first_bar(spec, late):
     return True
 
 
-def twin_of(spec, rng):
-    """Second world: identical up to the cut day T, rewritten / removed afterwards."""
+def twin_of(spec, rng, corrupt_ok=False):
+    """Second world: identical up to the cut day T, rewritten / removed afterwards.  corrupt_ok: the rewritten future may
+    hold literal zeros and negative prices (REAL two-world runs only: the Session model's markets are prices or blanks)."""
     c = spec["cfg"]
     days = sorted(set(int(d) for bars in c["market"].values() for d in bars))
     if not days:
@@ -192,7 +193,7 @@ def twin_of(spec, rng):
     T = rng.randint(lo - 1, hi)
     c2 = json.loads(json.dumps(c))
     mode = rng.choice(["rewrite", "remove", "both", "add"])
-    corrupt = random.Random(T * 31 + len(days)).random() < 0.3        # (second stream: the other draws stay as they were)
+    corrupt = corrupt_ok and random.Random(T * 31 + len(days)).random() < 0.3        # (second stream: the other draws stay as they were)
     for a in list(c2["market"]):
         bars = c2["market"][a]
         for d in list(bars):
@@ -489,7 +490,7 @@ def run(prop, replay_file=None):
                     add_adjustment(spec, rng)
                 elif len(jobs) % 8 == 3:
                     unadjusted_whole_number_opens(spec, random.Random(len(jobs)))
-                s2, T = twin_of(spec, rng)
+                s2, T = twin_of(spec, rng, corrupt_ok=True)
                 if s2 is None:
                     continue
                 jobs.append((spec, s2, T, sd * 1000 + len(jobs)))
